@@ -220,6 +220,23 @@ class PopenOracle(Contract):
             g['popen.' + k] = getattr(v.old, k)
 
 
+class ShlexSplit(Contract):
+    """shlex.split(s, posix=...): some list of words; remembers what was split and how"""
+    only_in = 'ctor'
+    params = ['s', 'comments', 'posix']
+    defaults = dict(comments=False, posix=True)
+
+    def outcomes(self, v):
+        return [Ret(TSymList((('w', T.Text),), True)), Raises('ValueError')]
+
+    def effects(self, v):
+        g = v.g
+        g['shlex.calls'] = g.get('shlex.calls', 0) + 1
+        g['shlex.of'] = v.old.s
+        g['shlex.posix'] = v.old.posix
+        g['shlex.words'] = v.result if v.raised is None else None
+
+
 class PopenInit(Contract):
     name = POPEN + '.__init__'
     props = ('C07', 'C13', 'C10')
@@ -230,7 +247,8 @@ class PopenInit(Contract):
     def shape(self, b):
         kind = b.choice('mode', ['b', 's'])
         env = b.choice('env', ['none', 'empty', 'some'])
-        d = dict(self=b.obj('self', POPEN, sealed=False), cmd=b.obj('cmd', 'list', sealed=True) if False else b.list([b.str('arg0', 's')]),
+        form = b.choice('cmd', ['list', 'string'])
+        d = dict(self=b.obj('self', POPEN, sealed=False), cmd=b.list([b.str('arg0', 's')]) if form == 'list' else b.str('cmdline', 's'),
                  cwd=b.opt('cwd', lambda: b.str('cwd', 's')),
                  env=b.none() if env == 'none' else (b.dict([], []) if env == 'empty' else b.dict([b.const('K')], [b.str('V', 's')])),
                  preexec_fn=b.any('preexec_fn'))
@@ -238,12 +256,18 @@ class PopenInit(Contract):
         return d
 
     def exits(self, v):
-        return ('OSError',)
+        return ('OSError', 'ValueError')
 
     def ensures(self, v):
         g = v.g
         out = passes_through(v, BASE_ARGS)
         if v.raised is None:
+            if hasattr(v.old.cmd, '_oid'):
+                out += [('C13:an-argument-list-is-taken-verbatim', And(same_ref(g.get('popen.cmd'), v.old.cmd), g.get('shlex.calls', 0) == 0))]
+            else:
+                out += [('C13:a-command-line-is-split-once-by-posix-shell-rules',
+                         And(g.get('shlex.calls', 0) == 1, eq(g.get('shlex.of'), v.old.cmd), eq(g.get('shlex.posix'), True))),
+                        ('C13:the-child-gets-exactly-the-words-of-the-split', same_ref(g.get('popen.cmd'), g.get('shlex.words')))]
             out += [('C10:a-started-child-is-not-reported-as-terminated', eq(v.new.self.terminated, False)),
                     ('C13:one-child-started', g.get('popens', 0) == 1),
                     ('C13:child-gets-the-requested-working-directory', same_ref(g.get('popen.cwd'), v.old.cwd)),
@@ -335,6 +359,7 @@ def register(reg):
     reg.add_iface('iface:ctorsocket', 'fileno', SockFileno)
     reg.add(SockInit)
     reg.add_extern('subprocess.Popen', PopenOracle)
+    reg.add_extern('shlex.split', ShlexSplit)
     reg.add(PopenInit)
     reg.add(SpawnOracle)
     reg.add(PtyInit)
